@@ -432,6 +432,8 @@ def build_statusline(data: dict) -> str:
         log.error("build_statusline_model_failed")
     try:
         cwd = data.get("workspace", {}).get("current_dir") or ""
+        if not isinstance(cwd, str):
+            cwd = ""
     except Exception:
         log.error("build_statusline_cwd_failed")
     log.debug("build_statusline_start", model=model, cwd=cwd)
